@@ -38,6 +38,10 @@ var scenarios = []struct{ name, text string }{
 	// two or more problems of every kind the grammar-level and precedence-level checks report
 	{"rules-without-productions", "grammar np ;\nstart = a b c \"x\" ;\nd = b c ;\n"},
 	{"handles-in-two-levels", "grammar hl ;\n@left \"+\" \"-\" \"/\" ;\n@right \"+\" \"-\" \"/\" \"*\" ;\n@none \"-\" \"*\" <e = e e> ;\n@left <e = e e> ;\nstart = e ;\ne = e \"+\" e | e \"-\" e | e \"*\" e | e e | \"i\" ;\n"},
+	// the same problem reported several times next to different ones: one handle in three and four levels (every pair of
+	// levels reports it), a token defined three times, three tokens with one value, an undefined token used in three rules
+	{"one-handle-in-four-levels", "grammar hf ;\n@left \"+\" \"-\" ;\n@right \"+\" ;\n@none \"+\" \"-\" ;\n@left \"+\" <e = e e> ;\n@right <e = e e> ;\n@none <e = e e> ;\nstart = e ;\ne = e \"+\" e | e \"-\" e | e e | \"i\" ;\n"},
+	{"repeated-identical-problems", "grammar rp ;\nAA = \"x\" ;\nAA = \"y\" ;\nAA = \"z\" ;\nBB = \"q\" ;\nCC = \"q\" ;\nDD = \"q\" ;\nEE = $NOPE ;\nFF = $NOPE ;\nstart = e UU ;\ne = UU AA | f UU BB | CC DD EE FF | g ;\nf = UU VV | g g ;\n"},
 	// a literal spelled like a non-terminal: alternatives that differ only in the kind of a same-spelled symbol
 	{"look-alike-symbols", "grammar ls ;\nNUM = /[0-9]+/ ;\nstart = value ;\nvalue = NUM | null | \"null\" | \"value\" | \"[\" value \"]\" ;\nnull = \"nil\" | \"none\" | nil ;\nnil = \"null\" \"nil\" ;\n"},
 	{"valid-with-operators", "grammar ops ;\nID = $ID ;\nWS = $WS ;\n@left \"*\" ;\n@left \"+\" ;\nstart = { stmt } ;\nstmt = ID \"=\" e \";\" ;\ne = e \"+\" e | e \"*\" e | [ \"-\" ] ID | \"(\" e \")\" ;\n"},
@@ -193,7 +197,7 @@ func main() {
 		freshProcesses(r)
 	}
 	if r.Fork(16) {
-		r.Set("rule", "15 scenarios (every map on the path has >= 2 entries); one execution = spec.Parse + golang.Generate into a fresh directory with a recording UI; every range over a Go map in /repo and in the dependency and every shuffle of the dependency is a choice point; all executions with at most d non-default orders are enumerated (quick: d=1 over all /repo points and the first 3 occurrences of every dependency site; thorough: d=2 over /repo points, d=2 with the second deviation at a map range of /repo, d=1 over the first 12 occurrences of every other dependency site; dependency points reached directly from a line of /repo count as /repo points); states = distinct observations (must be 1 per scenario), transitions = executions")
+		r.Set("rule", "17 scenarios (every map on the path has >= 2 entries); one execution = spec.Parse + golang.Generate into a fresh directory with a recording UI; every range over a Go map in /repo and in the dependency and every shuffle of the dependency is a choice point; all executions with at most d non-default orders are enumerated (quick: d=1 over all /repo points and the first 3 occurrences of every dependency site; thorough: d=2 over /repo points, d=2 with the second deviation at a map range of /repo, d=1 over the first 12 occurrences of every other dependency site; dependency points reached directly from a line of /repo count as /repo points); states = distinct observations (must be 1 per scenario), transitions = executions")
 		r.Set("evaluations", r.Get("executions"))
 		r.Set("transitions", r.Get("executions"))
 		r.Set("traces_validated_against_impl", r.Get("executions"))
